@@ -45,6 +45,19 @@ func cursorKey(v ssa.Value) string {
 	return fmt.Sprintf("val:%p", v)
 }
 
+// cursorKeyOfAddr: the key cursorKey gives to a load from this address.
+func cursorKeyOfAddr(addr ssa.Value) string {
+	switch a := addr.(type) {
+	case *ssa.FieldAddr:
+		return fmt.Sprintf("field:%s.%d", cursorKey(a.X), a.Field)
+	case *ssa.FreeVar:
+		return "free:" + a.Name()
+	case *ssa.Alloc:
+		return fmt.Sprintf("alloc:%p", a)
+	}
+	return fmt.Sprintf("load:%p", addr)
+}
+
 // boolEdge: the If that tests the call's result and the successor index taken
 // when the call returned false.
 func falseEdgeOf(c *ssa.Call) (*ssa.BasicBlock, int, bool) {
